@@ -71,7 +71,7 @@ PROBES = ['cfg:faults', 'cfg:fault-free', 'kind:tcpserver', 'kind:unixserver', '
           'fault:fatal_send_error', 'close-deferred', 'close-immediate', 'close-performed', 'write-after-close-request', 'write-after-closed',
           'payload-empty', 'payload-large', 'fatal-signalled', 'post-payload-written', 'flushed-in-full']
 TIERS = {
-    'quick': dict(runs=50000, wall=26, chunk=60, cfg=dict(max_ops=16, large=(60_000, 300_000), max_total=450_000, large_w=1)),
+    'quick': dict(runs=50000, wall=26, chunk=25, cfg=dict(max_ops=16, large=(60_000, 300_000), max_total=450_000, large_w=1)),
     'thorough': dict(runs=200000, wall=600, chunk=40, cfg=dict(max_ops=40, large=(300_000, 2_500_000), max_total=6_000_000, large_w=2)),
 }
 
